@@ -58,4 +58,11 @@ for it in range(R.n(12, 150)):
     R.check('linearity', c, np.allclose(fb.channelize(a * x + b2 * y, cache=False), a * one + b2 * fb.channelize(y, cache=False), atol=1e-9), None)
     pv = PF.get_pfb_voltages(x.real, taps, B, win)
     R.check('get_pfb_voltages/rfft-bins', c, pv.shape == ((W - 1) * taps, B // 2 + 1) and np.allclose(pv[:, :B // 2], fb.channelize(x.real, cache=False), atol=1e-9), None)
+# same geometry, different windows, one process (no state shared between filterbank objects)
+import scipy.signal
+for taps, B in ((3, 8), (4, 16)):
+    for win in ('hamming', 'hann', 'blackman', 'boxcar', 'hamming'):
+        fb = PF.PolyphaseFilterbank(num_taps=taps, num_branches=B, window_fn=win)
+        ref = scipy.signal.firwin(taps * B, cutoff=1.0 / B, window=win, scale=True) * taps * B
+        R.check('window/own-window_fn', dict(taps=taps, B=B, window=win), np.allclose(np.array(fb.window), ref, atol=1e-12), None)
 R.finish()
